@@ -197,7 +197,7 @@ pub fn run(args: &Args) -> Report {
         for kind in [Kind::Std, Kind::LF, Kind::LL] {
             for ci in [false, true] {
                 let mut built = vec![];
-                for (engine, sk, bc) in [(Engine::LowNonContig, StartKindC::B, true), (Engine::LowContig, StartKindC::B, true), (Engine::LowDfa, StartKindC::U, false)] {
+                for (engine, sk, bc) in [(Engine::LowNonContig, StartKindC::B, true), (Engine::LowContig, StartKindC::B, true), (Engine::LowDfa, StartKindC::U, false), (Engine::TopAuto, StartKindC::U, true)] {
                     let cfg = Cfg { engine, sk, mk: kind, ci, pre: true, dd: None, bc };
                     if let Ok(Ok(b)) = catch_unwind(AssertUnwindSafe(|| build(&cfg, pats))) {
                         built.push((cfg, b));
@@ -248,6 +248,26 @@ pub fn run(args: &Args) -> Report {
                     // C10: with a prefilter, a span search equals the sub-slice search shifted
                     for h in hays.iter().take(if thorough { 30 } else { 10 }) {
                         crate::sem::check_hay_rel(&ctx, &built, h, aspects | crate::sem::A_SPANS, "span");
+                    }
+                    // long haystacks: short spans that start shortly before an occurrence and end
+                    // inside it or right after it (a prefilter that looks beyond the span end, or a
+                    // vector searcher that needs a minimum window, is exercised here)
+                    let names: Vec<&str> = [("find", crate::sem::A_FIND), ("iter", crate::sem::A_ITER)].iter().filter(|x| aspects & x.1 != 0).map(|x| x.0).collect();
+                    for h in longs.iter() {
+                        let occs = oracle::occs_in(pats, ci, h, 0, h.len(), false);
+                        let mut done = 0;
+                        for o in occs.iter() {
+                            for back in [0usize, 2, 7] {
+                                for e in (o.start + 1)..=(o.end + 1).min(h.len()) {
+                                    let s0 = o.start.saturating_sub(back);
+                                    crate::sem::check_span_rel(&ctx, &built, h, s0, e, aspects, "span", true, &names);
+                                }
+                            }
+                            done += 1;
+                            if done >= 6 || rep.full() {
+                                break;
+                            }
+                        }
                     }
                 } else if mode == "safety" {
                     // C15: no panic and in-range results on arbitrary bytes
